@@ -8,14 +8,15 @@ changes: Player 2 keeps all its transitions and no transition between positive-p
 is lost."
 
 The model is `CR.condition` (`prune_reachability`, then `prune_paths`, then the `prune_states`
-loop) of `CR/Model/Solver.lean`.  The specification vocabulary (`dead`, `removedMass`, `condRow`,
+loop) of `CR/Model/Solver.lean`.  The specification vocabulary (`dead`, `keptMass`, `condRow`,
 `CondEdge`, `Shape`) and all helper lemmas are in `CR/Lemmas/Prune.lean`:
 
 * `dead reach t`         : the successor of `t` is reported with probability 0;
 * `condRow g strat reach s` : the conditioned transition list of state `s`, before the clearing of
   unreachable states — Player 2: the row verbatim; Player 1: the strategy-permitted, live
   transitions in original order; probabilistic: the row verbatim when nothing is dead, otherwise
-  the live transitions in original order with `p / (1 - removedMass)`;
+  the live transitions in original order with `p / keptMass`, where `keptMass` is the sum of the
+  live probabilities exactly as Python's `sum` computes it (from 0, left to right);
 * `CondEdge g strat reach u v` : `condRow .. u` has a transition to `v`;
 * `Shape g`              : `g.tl.size = g.owners.size` (guaranteed by `check_game`).
 -/
@@ -119,6 +120,7 @@ theorem condition_total_of_no_zeroDiv {g : Game α} (hg : Shape g) {strat : Arra
     subst this
     exact absurd hb hz
 
+omit [Sub α] [OfNat α 1] in
 /-- **E.** Without pruning, conditioning is `prune_reachability` alone. -/
 theorem condition_false (g : Game α) (strat : Array Strat) (reach : Array α) :
     condition false g strat reach = .ok (pruneReachability g.owners strat g.tl) := rfl
@@ -127,6 +129,28 @@ end Generic
 
 section OrderedField
 variable {K : Type} [Field K] [LinearOrder K] [IsStrictOrderedRing K]
+
+/-- **D, when something was removed.** Over an ordered field, for a probabilistic state that has at
+least one dead successor — whatever its probabilities sum to: the conditioned row consists of the
+live transitions, in their original order and with their original action and target, each carrying
+its original probability divided by the total surviving probability; if that total is not zero the
+new probabilities sum to 1; and if the surviving probabilities are positive `prune_paths` does not
+raise `ZeroDivisionError` on this row. -/
+theorem prob_survivors_of_removed {g : Game K} {strat : Array Strat} {reach : Array K} {s : Nat}
+    (ho : g.owners.getD s .prob = .prob)
+    (hrem : ((g.tl.getD s []).filter (fun t => !dead reach t)).length ≠ (g.tl.getD s []).length) :
+    let live := (g.tl.getD s []).filter (fun t => !dead reach t)
+    condRow g strat reach s = live.map (fun t => { t with p := t.p / (live.map (·.p)).sum }) ∧
+    ((live.map (·.p)).sum ≠ 0 → ((condRow g strat reach s).map (·.p)).sum = 1) ∧
+    ((∀ t ∈ live, 0 < t.p) →
+      prunePathsProb reach (g.tl.getD s []) = .ok (condRow g strat reach s)) := by
+  intro live
+  rw [condRow_prob ho]
+  refine ⟨condProb_field_of_removed reach hrem,
+    fun hne0 => condProb_sum_one_of_removed reach hrem hne0, fun hpos => ?_⟩
+  apply prunePathsProb_pos
+  intro t ht hd
+  exact hpos t (List.mem_filter.mpr ⟨ht, by rw [hd]; rfl⟩)
 
 /-- **D.** Over an ordered field, for a probabilistic state whose row is a positive distribution:
 the conditioned row consists of the live transitions, in their original order and with their
@@ -162,6 +186,19 @@ theorem prob_survivors_nodes {g : Game K} (hg : Shape g) {strat : Array Strat} {
   rw [reachable_states_exact hg h hr]
   obtain ⟨h1, h2, _⟩ := prob_survivors (strat := strat) (reach := reach) ho hpos hsum
   exact ⟨h1, h2⟩
+
+/-- **E, without normalisation.** Over an ordered field, if in every probabilistic row the
+transitions into states of non-zero reachability probability carry positive probabilities (the
+rows need not sum to 1) then conditioning always succeeds: the divisor of `prune_paths` is the
+sum of the surviving probabilities, hence not zero, and `prune_states` terminates within its fuel
+`n + 2`. -/
+theorem condition_total_of_pos {g : Game K} (hg : Shape g) {reach : Array K}
+    (hrows : ∀ s, s < g.owners.size → g.owners.getD s .prob = .prob →
+      ∀ t ∈ g.tl.getD s [], dead reach t = false → 0 < t.p)
+    (strat : Array Strat) :
+    ∃ nodes, condition true g strat reach = .ok nodes := by
+  obtain ⟨base, hb⟩ := prunePaths_pos hg hrows strat
+  exact condition_total_of_prunePaths hg hb
 
 /-- **E.** Over an ordered field, if every probabilistic row is a positive distribution then
 conditioning always succeeds: no `ZeroDivisionError`, and `prune_states` terminates within its
@@ -219,6 +256,27 @@ example :
         finals := [2] }
       #[none, none, none] #[(1/2 : Rat), 0, 1] =
       .ok #[[tr "" 1 2], [], [tr "" 1 2]] := by
+  decide +kernel
+
+/-- the divisor is the SUM OF THE SURVIVING probabilities, not `1 -` the removed ones: on a row
+that does not sum to 1 (here 1/4 + 1/4 + 1/4) the survivors are renormalised to 1/2 each (dividing
+by `1 - 1/4` would give 1/3 each) -/
+example :
+    condition true
+      { rewards := #[0, 0, 0], owners := #[.prob, .prob, .prob],
+        tl := #[[tr "" (1/4) 1, tr "" (1/4) 2, tr "" (1/4) 0], [tr "" 1 1], [tr "" 1 2]],
+        finals := [2] }
+      #[none, none, none] #[(1 : Rat), 0, 1] =
+      .ok #[[tr "" (1/2) 2, tr "" (1/2) 0], [], [tr "" 1 2]] := by
+  decide +kernel
+
+/-- surviving probabilities that cancel (sum 0) are the one remaining `ZeroDivisionError` -/
+example :
+    condition true
+      { rewards := #[0, 0, 0], owners := #[.prob, .prob, .prob],
+        tl := #[[tr "" 1 1, tr "" (1/2) 2, tr "" (-1/2) 0], [tr "" 1 1], [tr "" 1 2]],
+        finals := [2] }
+      #[none, none, none] #[(1 : Rat), 0, 1] = .error .zeroDiv := by
   decide +kernel
 
 /-- the hypotheses of `condition_total` are satisfiable -/
